@@ -4,7 +4,8 @@ MC:   specs/tcp/Conn.tla without faults: Conservation (wire . txbs = everything 
       LogExact, SendProgress for every pattern of tx sizes (incl. empty), partial sends, would-block (EAGAIN /
       SSLWantRead / SSLWantWrite), short reads, EOF.
 S->C: behaviours of the model (all short ones + tlc -simulate) executed on real Client, ClientTls, Remoter and RemoterTls
-      objects whose socket is a scripted fake; after every step txbs, the bytes on the wire, rxbs and both wire logs are
+      objects whose socket is a scripted fake, and on the connection a real Server / ServerTls accepts from a scripted listen
+      socket and services with Server.service() (so that what the server hands to its connections - the wire log - is bound too); after every step txbs, the bytes on the wire, rxbs and both wire logs are
       compared byte for byte.
 """
 from .. import core, tcpadapt
@@ -18,7 +19,16 @@ def consts(tls, maxops, maxbytes, faults=(), big=False):
 
 
 def replay(kind, h):
-    ep = tcpadapt.Endpoint(kind)
+    if kind.startswith("server"):
+        ep = tcpadapt.ServerEndpoint(kind)
+        try:
+            return replay_on(ep, h)
+        finally:
+            ep.close()
+    return replay_on(tcpadapt.Endpoint(kind), h)
+
+
+def replay_on(ep, h):
     q = pin = 0
     for k, e in enumerate(h):
         err = ep.apply(e)
@@ -48,7 +58,7 @@ def run(ctx):
                       workers=1, simulate="num=%d" % nsim, depth=dep + 2).tagged_json("BH")
         if nex < 300 or len(hs) - nex < nsim:
             raise core.MachineryError("behaviour dump too small: %d + %d" % (nex, len(hs) - nex))
-        kinds = ("clienttls", "remotertls") if tls else ("client", "remoter")
+        kinds = ("clienttls", "remotertls", "servertls") if tls else ("client", "remoter", "server")
         for i, h in enumerate(hs):
             for kind in kinds:
                 ctx.case((kind, tuple((e["op"], str(e["a"])) for e in h)),
